@@ -3,13 +3,63 @@
 //! must not allocate after it has acknowledged an operation (std's mpsc lazily allocates per-thread wait contexts on
 //! the first *blocking* receive, which may come after an acknowledgement), otherwise "quiescent point" would be a lie.
 
+use std::alloc::{GlobalAlloc as _, Layout};
 use std::any::Any;
+use std::cell::Cell;
 use std::panic::{AssertUnwindSafe, catch_unwind};
+use std::sync::atomic::{AtomicU32, Ordering};
 use std::sync::{Arc, Condvar, Mutex};
 use std::thread::JoinHandle;
 
 use simkit::Violation;
 use simkit::coord::{Coordinator, ExecError};
+
+/// How many allocations every simulated thread makes from a thread-local destructor while it is being torn down
+/// (set by the engine from the scenario before the threads start; 0 = none).
+pub static TEARDOWN_ALLOCS: AtomicU32 = AtomicU32::new(0);
+
+/// A thread-local value whose destructor allocates. It is touched before the thread's first tracked allocation, so
+/// that - destructors running in reverse order of registration - it is destroyed *after* anything the tracker keeps
+/// per thread: what it allocates is made by a thread that is alive and inside any process span still open, and must
+/// be counted like every other call.
+struct Teardown {
+    n: Cell<u32>,
+    direct: Cell<bool>,
+}
+
+impl Drop for Teardown {
+    fn drop(&mut self) {
+        for k in 0..self.n.get() {
+            let size = 200 + 8 * k as usize;
+            if self.direct.get() {
+                let l = Layout::from_size_align(size, 8).expect("layout");
+                // SAFETY: non-zero size; the block is released with the layout it was requested with.
+                unsafe {
+                    let p = crate::engine::DIRECT.alloc(l);
+                    if !p.is_null() {
+                        crate::engine::DIRECT.dealloc(p, l);
+                    }
+                }
+            } else {
+                let v: Vec<u8> = Vec::with_capacity(size);
+                drop(std::hint::black_box(v));
+            }
+        }
+    }
+}
+
+thread_local! {
+    static TEARDOWN: Teardown = const { Teardown { n: Cell::new(0), direct: Cell::new(false) } };
+}
+
+/// First thing a simulated thread does: registers the destructor above.
+pub fn arm_teardown(direct: bool) {
+    let n = TEARDOWN_ALLOCS.load(Ordering::Relaxed);
+    TEARDOWN.with(|t| {
+        t.n.set(n);
+        t.direct.set(direct);
+    });
+}
 
 type MiniJob = Box<dyn FnOnce() -> Box<dyn Any + Send> + Send + 'static>;
 
@@ -74,6 +124,7 @@ impl MiniCoord {
         let handle = std::thread::Builder::new()
             .name(format!("mini-{idx}"))
             .spawn(move || {
+                arm_teardown(false);
                 let mb = mb2;
                 // Label this thread's log entries from the start (simulated thread i is tid i + 1).
                 crate::simalloc::set_tid(idx as u32 + 1);
@@ -210,6 +261,9 @@ impl Threads {
         } else {
             let mut c = Coordinator::new(n);
             c.op_timeout = std::time::Duration::from_secs(OP_TIMEOUT_S);
+            for t in 0..n {
+                let _ = c.exec(t, || arm_teardown(true));
+            }
             Kind::Sim(c)
         };
         Self {
@@ -220,7 +274,11 @@ impl Threads {
 
     pub fn spawn(&mut self) -> usize {
         match &mut self.kind {
-            Kind::Sim(c) => c.spawn(),
+            Kind::Sim(c) => {
+                let idx = c.spawn();
+                let _ = c.exec(idx, || arm_teardown(true));
+                idx
+            }
             Kind::Mini(m) => m.spawn(),
         }
     }
